@@ -151,6 +151,13 @@ def run_shard(ctx, spec):
                         ask(m)
                     for m in relang.lookalikes(s, rnd, 2):
                         ask(m)
+        # the language has no length bound: unbounded repeats (\d+, \s*, \d*) taken 45 / 130 / 700 times, one family at a time
+        for fam in mine:
+            g = relang.Gen(mon.real[fam], seed=ctx.seed * 17 + len(fam), ascii_only=True, maxrep=1, long_repeats=(45, 130, 700))
+            for s in g.many(300 if ctx.tier == 'quick' else 3000):
+                if len(s) > 40:
+                    ask(s)
+                    ctx.count('eval.codes-longer-than-40-characters')
         # cross-family splices
         others = []
         for fam in fams:
